@@ -41,6 +41,16 @@ CLAIMED = {
              'vf/oracles/dtspec.py, a pure-Python model of inet_pton(AF_INET6); float, timedelta, locale, '
              'existing-* are outside the claim',
         ref='DESIGN.md section 7 C09', engine='E1-VSE + E2-regex'),
+    'C01': dict(
+        text='For every schema of the generated family and every balanced line shape up to the line '
+             'bound, with every key / section-type / section-name / value token symbolic, z3 shows on '
+             'every feasible path of the real load pipeline that the text is accepted exactly when an '
+             'independent conformance oracle (working from the schema description) accepts it, and '
+             'that rejection is a ZConfig.ConfigurationError.',
+        note='trusted: z3, engine models of primitives (replayed per path, plus boundary witnesses where '
+             'tokens coincide with each other or with vocabulary words), vf/oracles/conformance.py and '
+             'linegrammar.py; schemas outside vf/gen.py and longer texts are outside the claim',
+        ref='DESIGN.md section 7 C01'),
 }
 
 NOT_YET = 'harness not built yet in this revision (see DESIGN.md section 7 for the plan)'
